@@ -24,8 +24,8 @@ CLAIM = dict(
          "esir_tie_independent); user rules consulted at most once per argument (esir_rules_once); the sampler entry used by fast_SIR shares "
          "the loop (fast_nonmarkov_is_esir_det); percolation builders build exactly H with the stated attributes (perc_builder_spec) and "
          "get_infected_nodes returns its out-component minus R0 (get_infected_spec, sound and complete). "
-         "_partial: esir_det_transmissions_partial (full-data branch Ok and history infection time = transmission time need invariant J3b; "
-         "validated by the correspondence only). Tie: extracted model vs the real code on every graph <=3 nodes x delays {0,1,2,inf} x "
+         "Both return modes return and pred_inf_time = infection time for every infected node (esir_det_full, invariant J3b). "
+         "Nothing is _partial; not proved: the row counts (S,I,R columns) as a function of the log (C04/C10 material). Tie: extracted model vs the real code on every graph <=3 nodes x delays {0,1,2,inf} x "
          "durations {0,1,2,inf} (exhaustive in thorough), random graphs <=10 nodes, fast_SIR on both paths (per-edge expovariate; "
          "constant-tau = expovariate + np.random.binomial + random.sample + truncated exponential) under a scripted random source with every "
          "rate/binomial argument compared, both return modes, rule-call order, percolation builders.",
